@@ -372,3 +372,91 @@ macro_rules! gen_enum {
     };
 }
 gen_enum!(GMacE, T, T);
+
+/// zero-copy struct with native alignment 1 and alignment unit 8
+/// (`repr(packed)`): the unit comes from the widest field, not from align_of
+#[derive(Epserde, Debug, Clone, Copy, PartialEq, Eq)]
+#[repr(C)]
+#[repr(packed)]
+#[zero_copy]
+pub struct ZP {
+    pub tag: u8,
+    pub value: u64,
+}
+impl RefEnc for ZP {
+    fn enc<const N: usize>(&self, o: &mut RefOut<N>) {
+        o.block(8, 9);
+        self.raw(o)
+    }
+    fn unit() -> Option<usize> {
+        Some(8)
+    }
+    fn raw<const N: usize>(&self, o: &mut RefOut<N>) {
+        o.put(self.tag);
+        let v = self.value;
+        o.put_le(v as u128, 8);
+    }
+    fn raw_size() -> usize {
+        9
+    }
+}
+impl KEq for ZP {
+    fn keq(&self, o: &Self) -> bool {
+        let (a, b) = (self.value, o.value);
+        self.tag == o.tag && a == b
+    }
+}
+
+/// deep-copy enum with explicit discriminants that differ from the declaration
+/// indices: the tag on disk is the declaration index
+#[derive(Epserde, Debug, Clone, Copy, PartialEq, Eq)]
+pub enum ED {
+    Low = 1,
+    Mid = 2,
+    High = 5,
+}
+impl RefEnc for ED {
+    fn enc<const N: usize>(&self, o: &mut RefOut<N>) {
+        match self {
+            ED::Low => o.put_le(0, 8),
+            ED::Mid => o.put_le(1, 8),
+            ED::High => o.put_le(2, 8),
+        }
+    }
+    fn unit() -> Option<usize> {
+        None
+    }
+}
+impl KEq for ED {
+    fn keq(&self, o: &Self) -> bool {
+        self == o
+    }
+}
+
+/// zero-sized zero-copy struct with two const parameters (hash recipe: all
+/// const values, then all const names)
+#[derive(Epserde, Debug, Clone, Copy, PartialEq, Eq)]
+#[repr(C)]
+#[zero_copy]
+pub struct ZC2<const A: usize, const B: usize>;
+
+/// generic enum whose parameter is the type of a field of a tuple variant only
+#[derive(Epserde, Debug, Clone, PartialEq, Eq)]
+pub enum GT<V> {
+    N,
+    H { id: u32 },
+    T(u8, V),
+}
+/// generic enum whose parameter is the type of a field of a struct variant only
+#[derive(Epserde, Debug, Clone, PartialEq, Eq)]
+pub enum GS<V> {
+    N,
+    T(u8, u16),
+    S { a: u8, b: V },
+}
+/// tuple struct with a parameter-typed field and a second parameter that is
+/// merely mentioned. (A parameter that is the type of one field *and* mentioned
+/// in the type of another is outside the grammar: the eps-copy type
+/// `S<DeserType<V>>` has no field of type `Vec<V>`.)
+#[derive(Epserde, Debug, Clone, PartialEq, Eq)]
+pub struct GTS<V, W>(pub V, pub Vec<W>, pub u8);
